@@ -103,7 +103,58 @@ def retained_results(ctx, tmpdir):
                 ctx.violate(case, msg, {"site": "retained", "what": "changed"})
 
 
+def _same_object_rewritten(ctx):
+    """one graph object written, updated *in place* (an array element, an array through a held reference, a metadata entry, an
+    appended edge - no attribute is re-assigned), written again to the same path: read returns the graph as it is now"""
+    import nir
+    import compare
+    rng = ctx.rng
+    tmpdir = tempfile.mkdtemp(prefix="nirverif-c15b-", dir="/var/tmp")
+    try:
+        for i in range(ctx.n(16, 64)):
+            w = np.arange(6, dtype="float64").reshape(2, 3) + rng.random()
+            lin = nir.Affine(weight=w, bias=np.zeros(2))
+            sub = nir.NIRGraph(nodes={"s": nir.Scale(np.ones(2), metadata={"k": 1})}, edges=[], metadata={"note": "a"})
+            g = nir.NIRGraph(nodes={"in": nir.Input(np.array([3])), "lin": lin, "sub": sub, "out": nir.Output(np.array([2]))},
+                             edges=[("in", "lin"), ("lin", "out")], metadata={"epoch": 0})
+            path = os.path.join(tmpdir, f"ckpt{i}.nir")
+            edits = rng.sample(["element", "held_reference", "metadata", "nested_metadata", "nested_array", "edge"], rng.randrange(1, 4))
+            case = {"op": "same_object_rewritten", "edits": edits, "epochs": 3}
+            ctx.case(case); ctx.count("same_object_rewritten")
+            held = lin.weight
+            try:
+                for epoch in range(3):
+                    nir.write(path, g)
+                    back = nir.read(path)
+                    d = compare.graph_diff(g, back)
+                    if d:
+                        ctx.violate(case, "read after re-writing an updated graph object returns an earlier state of it",
+                                    {"site": "rewrite-same-object", "what": "stale", "edits": sorted(edits)[:1]},
+                                    observed=[list(x) if isinstance(x, (list, tuple)) else x for x in d[:3]])
+                        break
+                    for e in edits:
+                        if e == "element":
+                            lin.bias[0] += 1.0
+                        elif e == "held_reference":
+                            held -= 0.25
+                        elif e == "metadata":
+                            g.metadata["epoch"] = epoch + 1
+                        elif e == "nested_metadata":
+                            sub.nodes["s"].metadata["k"] = epoch + 2
+                        elif e == "nested_array":
+                            sub.nodes["s"].scale[...] = epoch + 2
+                        elif e == "edge":
+                            g.edges.append(("lin", "out"))
+            except Exception as e:  # noqa
+                ctx.violate(case, "re-writing an updated graph object raised", {"site": "rewrite-same-object", "what": "raised"},
+                            observed=f"{type(e).__name__}: {e}")
+    finally:
+        import shutil
+        shutil.rmtree(tmpdir, ignore_errors=True)
+
+
 def run(ctx):
+    _same_object_rewritten(ctx)
     import nir
     from nir.serialization import read_version
     from canon import canon_node
